@@ -19,7 +19,7 @@ RULE = ('E1 exhaustive product: container {SEQUENCE, SET} x governor type {INTEG
         '{ANY, [3] IMPLICIT ANY, [3] EXPLICIT ANY, SET OF ANY, SEQUENCE OF ANY} x 8 mapped inner types (INTEGER, OCTET '
         'STRING, BOOLEAN, SEQUENCE{a,b OPT}, SEQUENCE OF INTEGER, [5] EXPLICIT INTEGER, SET OF OCTET STRING, empty '
         'SEQUENCE) x 2 inner values x governing value {mapped, unmapped} x codec {BER definite, BER indefinite, CER, '
-        'DER} x decodeOpenTypes {on, off} x openTypes override {absent, present and disagreeing with the default map, present but silent about this governing value, schema map filled in after the schema was built}. '
+        'DER} x decodeOpenTypes {on, off} x openTypes override {absent, present and disagreeing with the default map, present but silent about this governing value, schema map filled in after the schema was built} x field declaration {both mandatory; open type field OPTIONAL and present; governing field DEFAULT and holding its default}. '
         'Oracle: with resolution on and a mapped governing value the field reads back as the inner abstract value '
         'under the mapped type; otherwise the field holds exactly the complete encoding (same codec) of the inner '
         'value. Non-trivial = every case; distinct = digest of the full configuration.')
@@ -74,13 +74,13 @@ def field_spec(shape):
     raise ValueError(shape)
 
 
-def make_schema(container, gov, shape, default_map):
+def make_schema(container, gov, shape, default_map, fmode='req', govval=None):
     govcls, _ = GOV[gov]
     ot = opentype.OpenType('id', default_map)
     cls = univ.Sequence if container == 'seq' else univ.Set
-    return cls(componentType=namedtype.NamedTypes(
-        namedtype.NamedType('id', govcls()),
-        namedtype.NamedType('blob', field_spec(shape), openType=ot)))
+    idt = namedtype.DefaultedNamedType('id', govcls(govval)) if fmode == 'default-id' else namedtype.NamedType('id', govcls())
+    blobcls = namedtype.OptionalNamedType if fmode == 'opt-blob' else namedtype.NamedType
+    return cls(componentType=namedtype.NamedTypes(idt, blobcls('blob', field_spec(shape), openType=ot)))
 
 
 def configs():
@@ -96,11 +96,16 @@ def configs():
                                     for override in (False, True, 'partial', 'late'):
                                         if override in ('partial', 'late') and not (resolve and mapped):
                                             continue
-                                        yield container, gov, shape, k, IT, iv, mapped, codec, resolve, override
+                                        yield container, gov, shape, k, IT, iv, mapped, codec, resolve, override, 'req'
+                                        if resolve and mapped and override is False:
+                                            # the open type field OPTIONAL (and present); the governing field DEFAULT and
+                                            # holding its default (so no encoder sends it)
+                                            yield container, gov, shape, k, IT, iv, mapped, codec, resolve, override, 'opt-blob'
+                                            yield container, gov, shape, k, IT, iv, mapped, codec, resolve, override, 'default-id'
 
 
 def check(idx, cfg, R):
-    container, gov, shape, k, IT, iv, mapped, codec, resolve, override = cfg
+    container, gov, shape, k, IT, iv, mapped, codec, resolve, override, fmode = cfg
     if container == 'set' and shape == 'any':
         # an untagged ANY member of a SET is only unambiguous when the inner value's tag differs
         # from the governor's tag
@@ -108,17 +113,25 @@ def check(idx, cfg, R):
         gtag = ('U', 2) if gov == 'int' else ('U', 6)
         if gtag in ft:
             return
+    if fmode == 'default-id' and shape == 'any':
+        # an omitted DEFAULT governor followed by an untagged ANY is only unambiguous when the inner value's tag
+        # differs from the governor's
+        if (('U', 2) if gov == 'int' else ('U', 6)) in M.first_tags(IT):
+            return
     R.evaluations += 1
     R.nontrivial(repr(cfg))
     feats = {'container:' + container, 'gov:' + gov, 'shape:' + shape, 'codec:' + codec,
              'resolve' if resolve else 'noresolve', 'mapped' if mapped else 'unmapped',
              {False: 'no_override', True: 'override', 'partial': 'partial_override', 'late': 'late_map'}[override],
+             'fmode:' + fmode,
              'inner:' + ('constructed' if M.base_of(IT)[0] in ('SEQ', 'SET', 'SEQOF', 'SETOF') or IT[0] == 'TAG' else 'primitive')}
     if IT[0] == 'TAG' and IT[1] == 'E' and M.base_of(IT)[0] in ('INT', 'BOOL', 'NULL', 'OID', 'REAL', 'ENUM') and codec in ('ber-indef', 'cer'):
         feats.add('kf:K1')        # the inner value's own encoding carries the recorded stray end-of-octets
     if IT[0] == 'TAG' and (IT[2], IT[3]) == ('C', 3) and shape in ('any-implicit', 'any-explicit', 'setof-any-implicit', 'seqof-any-explicit'):
         feats.add('inner_tag_equals_field_tag')
-    rec = {'cfg': [container, gov, shape, k, mapped, codec, resolve, override], 'inner_T': IT, 'inner_v': iv}
+    if fmode == 'opt-blob' and codec in ('cer', 'der') and M.base_of(IT)[0] in ('SEQ', 'SET', 'SEQOF', 'SETOF') and not iv:
+        feats.add('empty_value_in_optional_field')      # recorded finding K2 reaches the inner value through ifNotEmpty
+    rec = {'cfg': [container, gov, shape, k, mapped, codec, resolve, override, fmode], 'inner_T': IT, 'inner_v': iv}
     keyfn = GOV[gov][1]
     true_map = {}
     for j, (T2, _) in enumerate(INNER):
@@ -143,7 +156,7 @@ def check(idx, cfg, R):
     else:
         default_map, openTypes = true_map, None
     try:
-        schema = make_schema(container, gov, shape, default_map)
+        schema = make_schema(container, gov, shape, default_map, fmode, govval)
         if late is not None:
             default_map.update(late)
         val = schema.clone()
@@ -237,6 +250,6 @@ def shard(tier, i, n, seed):
 def replay(case):
     R = Result()
     c = case['cfg']
-    cfg = (c[0], c[1], c[2], c[3], case['inner_T'], case['inner_v'], c[4], c[5], c[6], c[7])
+    cfg = (c[0], c[1], c[2], c[3], case['inner_T'], case['inner_v'], c[4], c[5], c[6], c[7], c[8] if len(c) > 8 else 'req')
     check(1, cfg, R)
     return R.violations
